@@ -15,13 +15,15 @@ package main
 
 import (
 	"context"
-	"flag"
 	"fmt"
 	"math/rand"
 	"os"
+	"runtime/pprof"
 	"sort"
+	"strconv"
 	"strings"
 	"sync"
+	"time"
 
 	"github.com/chrislusf/seaweedfs/weed/pb/filer_pb"
 	"github.com/chrislusf/seaweedfs/weed/util"
@@ -201,6 +203,13 @@ func expect(t tree, o op) (after tree, mustFail bool, class string) {
 			return t, true, "dst-parent-is-file"
 		}
 		for _, p := range S {
+			if inS[dst+p[len(src):]] {
+				// an image lands on a path of the source set itself (only possible when dst is
+				// the parent chain of src and a descendant repeats the name): own input class
+				class = "dst-is-ancestor-name-collision"
+			}
+		}
+		for _, p := range S {
 			img := dst + p[len(src):]
 			if ex, ok := t[img]; ok && !inS[img] {
 				if ex.IsDir != t[p].IsDir {
@@ -238,6 +247,10 @@ type world struct {
 	runaway  *op
 	hist     []op
 	stats    map[string]int64
+	kind       string
+	bm         *lib.BlobMaster
+	sinceRenew int
+	storeCalls int64
 }
 
 func attrs(isDir bool, ts int64) *filer_pb.FuseAttributes {
@@ -381,7 +394,9 @@ func (w *world) step(o op) bool {
 	cur := o
 	w.runaway = &cur
 	w.fw.Store.SetBudget(budget)
+	t0 := time.Now()
 	failed, errText := w.exec(o)
+	tExec += time.Since(t0)
 	used, exceeded := w.fw.Store.ClearBudget()
 	w.runaway = nil
 	r.Eval(1)
@@ -390,7 +405,9 @@ func (w *world) step(o op) bool {
 		r.Count("max_store_calls_in_one_op", used-r.Counter("max_store_calls_in_one_op"))
 	}
 
+	t0 = time.Now()
 	d := w.fw.Dump(w.universe)
+	tDump += time.Since(t0)
 	real := realTree(d)
 	detail := func(msg string) map[string]interface{} {
 		return map[string]interface{}{"msg": msg, "store": w.fw.Kind, "history": w.hist, "op": o, "input_class": class,
@@ -432,7 +449,7 @@ func (w *world) step(o op) bool {
 				return resync(r.Violation(base("ancestor-is-file"), detail("entry "+p+" exists below the file "+a)))
 			}
 		}
-		if b, ok := before[p]; ok && b.IsDir != n.IsDir {
+		if b, ok := before[p]; ok && b.IsDir != n.IsDir && class != "dst-is-ancestor-name-collision" {
 			return resync(r.Violation(base("type-flip"), detail("entry "+p+" changed between file and directory")))
 		}
 	}
@@ -444,10 +461,12 @@ func (w *world) step(o op) bool {
 		want = before
 	}
 	if cl, p := diff(real, want); cl != "" {
+		sig := base(cl)
 		if failed {
-			cl = "changed-although-refused:" + cl
+			sig = base("changed-although-refused")
+			sig["diff"] = cl
 		}
-		return resync(r.Violation(base(cl), detail("namespace differs from the reference tree at "+p)))
+		return resync(r.Violation(sig, detail("namespace differs from the reference tree at "+p)))
 	}
 	r.Eval(1)
 	if mustFail && failed {
@@ -460,9 +479,17 @@ func (w *world) step(o op) bool {
 	return true
 }
 
+var tExec, tDump, tReset, tRenew time.Duration
+
 func (w *world) reset(d *lib.TreeDump) {
+	t0 := time.Now()
+	defer func() { tReset += time.Since(t0) }()
 	if d == nil {
 		d = w.fw.Dump(w.universe)
+	}
+	if len(d.Found) == 0 {
+		w.model = make(tree)
+		return
 	}
 	w.fw.Wipe(d, nil)
 	d2 := w.fw.Dump(w.universe)
@@ -479,15 +506,25 @@ func (w *world) reset(d *lib.TreeDump) {
 func (w *world) runSeq(ops []op) (completed bool) {
 	w.hist = nil
 	w.r.Case(map[string]interface{}{"store": w.fw.Kind, "ops": ops})
-	if len(w.model) > 0 {
-		w.reset(nil)
-	}
+	w.startCase(len(ops))
 	for _, o := range ops {
 		if !w.step(o) {
 			return false
 		}
 	}
 	return true
+}
+
+// startCase gives the next case an empty namespace (wipe, or a fresh store every ~450 ops).
+func (w *world) startCase(nops int) {
+	w.sinceRenew += nops
+	if w.sinceRenew > map[string]int{"leveldb": 300, "leveldb2": 700, "leveldb3": 200}[w.kind] {
+		w.renew()
+		return
+	}
+	if len(w.model) > 0 {
+		w.reset(nil)
+	}
 }
 
 func (w *world) tag() string {
@@ -522,6 +559,20 @@ func alphabet() []op {
 		op{Kind: "rename", Path: "/a", Dst: "/buckets/x/a"}, op{Kind: "delete", Path: "/buckets/x", Recursive: true, DeleteData: true},
 	)
 	return a
+}
+
+// coreAlphabet is the part of the alphabet enumerated one level deeper.
+func coreAlphabet() []op {
+	return []op{
+		{Kind: "create", Path: "/a/b"}, {Kind: "create", Path: "/a", IsDir: true}, {Kind: "create", Path: "/a"},
+		{Kind: "rename", Path: "/a", Dst: "/b"}, {Kind: "rename", Path: "/a", Dst: "/a/b"}, {Kind: "rename", Path: "/a/b", Dst: "/a"},
+		{Kind: "delete", Path: "/a"}, {Kind: "delete", Path: "/a", Recursive: true, DeleteData: true},
+		{Kind: "create", Path: "/a/b/c"}, {Kind: "create", Path: "/b", IsDir: true}, {Kind: "rename", Path: "/a/b", Dst: "/b"},
+		{Kind: "update", Path: "/a", IsDir: true},
+		{Kind: "rename", Path: "/b", Dst: "/a/b"}, {Kind: "rename", Path: "/a", Dst: "/b/a"},
+		{Kind: "hdelete", Path: "/a", Recursive: true, IgnoreErr: true, DeleteData: true},
+		{Kind: "create", Path: "/b/a"},
+	}
 }
 
 func universeExh() []string {
@@ -611,9 +662,31 @@ func randomOp(rng *rand.Rand, w *world, uni []string) op {
 	}
 }
 
+// renew replaces the store by a fresh one: leveldb keeps every overwritten version
+// and tombstone of the few keys of the universe in its memtable, which makes
+// listings slower and slower when one store is reused for thousands of sequences.
+func (w *world) renew() {
+	t0 := time.Now()
+	defer func() { tRenew += time.Since(t0) }()
+	if w.fw != nil {
+		w.storeCalls += w.fw.Store.Total()
+		w.fw.Close()
+		_ = os.RemoveAll(w.fw.Dir)
+	}
+	w.fw = lib.NewFilerWorld(w.r, w.kind, w.bm)
+	w.model = make(tree)
+	w.sinceRenew = 0
+	w.installRunaway()
+}
+
 func newWorld(r *lib.Run, kind string, bm *lib.BlobMaster, uni []string) *world {
-	w := &world{r: r, universe: uni, model: make(tree), stats: make(map[string]int64)}
-	w.fw = lib.NewFilerWorld(r, kind, bm)
+	w := &world{r: r, universe: uni, model: make(tree), stats: make(map[string]int64), kind: kind, bm: bm}
+	w.renew()
+	return w
+}
+
+func (w *world) installRunaway() {
+	r, kind := w.r, w.kind
 	w.fw.Store.OnRunaway = func(used int64) {
 		o := op{}
 		if w.runaway != nil {
@@ -623,7 +696,6 @@ func newWorld(r *lib.Run, kind string, bm *lib.BlobMaster, uni []string) *world 
 			"msg": "operation keeps calling the store although every call fails", "store": kind, "history": w.hist, "store_calls": used})
 		r.Finish(0)
 	}
-	return w
 }
 
 func seqKey(kind string, w *world, ops []op) string {
@@ -642,51 +714,65 @@ func runBatch(r *lib.Run, mode, kind string, shard, nshards, sampleOneIn int) {
 	switch mode {
 	case "exh":
 		w := newWorld(r, kind, bm, universeExh())
-		alpha := alphabet()
-		L := r.Pick(3, 4)
-		n := len(alpha)
-		total := 1
-		for i := 0; i < L; i++ {
-			total *= n
+		full := alphabet()
+		core := coreAlphabet()
+		type space struct {
+			name  string
+			alpha []op
+			L     int
+		}
+		// every prefix of a sequence is judged too, so length L covers all shorter lengths
+		spaces := []space{{"full", full, 2}, {"core", core, 3}}
+		if r.Thorough() {
+			spaces = []space{{"full", full, 3}, {"mini", core[:12], 4}}
 		}
 		rng := r.SubRng("c18-exh-sample-" + kind)
-		for idx := 0; idx < total; idx++ {
-			keep := sampleOneIn <= 1 || rng.Intn(sampleOneIn) == 0
-			if idx%nshards != shard || !keep {
-				continue
+		var spaceNotes []string
+		for _, sp := range spaces {
+			alpha, L := sp.alpha, sp.L
+			n := len(alpha)
+			total := 1
+			for i := 0; i < L; i++ {
+				total *= n
 			}
-			ops := make([]op, L)
-			x := idx
-			for i := L - 1; i >= 0; i-- {
-				ops[i] = alpha[x%n]
-				x /= n
-			}
-			for i := range ops {
-				if ops[i].Kind == "create" || ops[i].Kind == "update" {
-					ops[i].Tag = w.tag()
+			spaceNotes = append(spaceNotes, fmt.Sprintf("%s: all %d sequences of length %d over %d ops (sampled 1 in %d)", sp.name, total, L, n, sampleOneIn))
+			for idx := 0; idx < total; idx++ {
+				keep := sampleOneIn <= 1 || rng.Intn(sampleOneIn) == 0
+				if idx%nshards != shard || !keep {
+					continue
+				}
+				ops := make([]op, L)
+				x := idx
+				for i := L - 1; i >= 0; i-- {
+					ops[i] = alpha[x%n]
+					x /= n
+				}
+				for i := range ops {
+					if ops[i].Kind == "create" || ops[i].Kind == "update" {
+						ops[i].Tag = w.tag()
+					}
+				}
+				okBefore := successCount(r)
+				w.runSeq(ops)
+				r.Count("sequences_exhaustive", 1)
+				if successCount(r) > okBefore {
+					r.Nontrivial(seqKey(kind, w, ops))
+				}
+				if idx%7919 == 0 {
+					r.Sample(map[string]interface{}{"store": kind, "ops": ops})
+				}
+				if r.Violations() > 20 {
+					break
 				}
 			}
-			okBefore := successCount(r)
-			w.runSeq(ops)
-			r.Count("sequences_exhaustive", 1)
-			if successCount(r) > okBefore {
-				r.Nontrivial(seqKey(kind, w, ops))
-			}
-			if idx%7919 == 0 {
-				r.Sample(map[string]interface{}{"store": kind, "ops": ops})
-			}
-			if r.Violations() > 20 {
-				break
-			}
 		}
-		r.Note("exhaustive_length", L)
-		r.Note("alphabet_size", n)
+		r.Note("exhaustive_spaces", spaceNotes)
 		r.Note("ops_by_kind_class_outcome", w.stats)
-		r.Count("store_calls", w.fw.Store.Total())
+		r.Count("store_calls", w.storeCalls+w.fw.Store.Total())
 	case "rand":
 		uni := universeRand()
 		w := newWorld(r, kind, bm, uni)
-		nseq, nops := r.Pick(300, 3000), 60
+		nseq, nops := r.Pick(60, 1000), r.Pick(40, 60)
 		rng := r.SubRng("c18-rand-" + kind)
 		for s := 0; s < nseq; s++ {
 			seed := rng.Int63()
@@ -695,9 +781,7 @@ func runBatch(r *lib.Run, mode, kind string, shard, nshards, sampleOneIn int) {
 			}
 			srng := rand.New(rand.NewSource(seed))
 			w.hist = nil
-			if len(w.model) > 0 {
-				w.reset(nil)
-			}
+			w.startCase(nops)
 			var ops []op
 			okBefore := successCount(r)
 			for i := 0; i < nops; i++ {
@@ -724,8 +808,10 @@ func runBatch(r *lib.Run, mode, kind string, shard, nshards, sampleOneIn int) {
 			}
 		}
 		r.Note("ops_by_kind_class_outcome", w.stats)
-		r.Count("store_calls", w.fw.Store.Total())
+		r.Count("store_calls", w.storeCalls+w.fw.Store.Total())
 	}
+	pprof.StopCPUProfile()
+	r.Note("harness_time_ms", map[string]int64{"exec": tExec.Milliseconds(), "dump": tDump.Milliseconds(), "reset": tReset.Milliseconds(), "renew": tRenew.Milliseconds()})
 	r.Finish(0)
 }
 
@@ -735,18 +821,19 @@ func successCount(r *lib.Run) int64 {
 
 func main() {
 	r := lib.Start("C18", "exploration")
-	r.SetRule("operation sequences (create file/dir incl. implicit parents, UpdateEntry, DeleteEntry and DeleteEntryMetaAndData with recursive/ignoreRecursiveError/deleteData flags, AtomicRenameEntry incl. onto existing targets, onto ancestors, into the mover's own subtree and across buckets) on a real Filer over leveldb/leveldb2/leveldb3; after every op the whole namespace is dumped and compared with a reference tree. Bounded-exhaustive: all sequences of fixed length over a 33-op alphabet (every prefix is judged too); random: seeded sequences of 60 ops over names {a,b,c} to depth 3 plus /buckets/{x,y}. distinct = distinct (store, op sequence); non-trivial = at least one operation succeeded")
+	r.SetRule("operation sequences (create file/dir incl. implicit parents, UpdateEntry, DeleteEntry and DeleteEntryMetaAndData with recursive/ignoreRecursiveError/deleteData flags, AtomicRenameEntry incl. onto existing targets, onto ancestors, into the mover's own subtree and across buckets) on a real Filer over leveldb/leveldb2/leveldb3; after every op the whole namespace is dumped and compared with a reference tree. Bounded-exhaustive (every prefix is judged too): quick all sequences of length 2 over a 33-op alphabet and of length 3 over a 16-op core alphabet, thorough length 3 over the 33 ops and length 4 over 12 ops; complete on leveldb, seeded sample on leveldb2/leveldb3; random: seeded sequences of 40 (quick) / 60 (thorough) ops over names {a,b,c} to depth 3 plus /buckets/{x,y}. distinct = distinct (store, op sequence); non-trivial = at least one operation succeeded")
 	r.Assume("a spurious refusal that leaves the namespace unchanged is not a violation (the statement only says which operations must be refused)")
 	r.Assume("rename onto an existing target of the same type is judged as a simultaneous move/merge; a refused rename must leave the namespace unchanged (no loss, no duplication)")
 	r.Assume("non-termination is judged by a logical bound: more than 20 store calls per entry of the moved subtree (+60) in one rename")
 
-	fs := flag.NewFlagSet("c18", flag.ContinueOnError)
-	mode := fs.String("mode", "", "child mode: exh|rand")
-	kind := fs.String("store", "leveldb", "store kind")
-	shard := fs.Int("shard", 0, "")
-	nshards := fs.Int("nshards", 1, "")
-	sample := fs.Int("sample", 1, "")
-	_ = fs.Parse(r.Args)
+	// child arguments are positional (lib.Start owns the flag set): mode store shard nshards sample
+	mode, kind, shard, nshards, sample := "", "leveldb", 0, 1, 1
+	if len(r.Args) >= 5 {
+		mode, kind = r.Args[0], r.Args[1]
+		shard, _ = strconv.Atoi(r.Args[2])
+		nshards, _ = strconv.Atoi(r.Args[3])
+		sample, _ = strconv.Atoi(r.Args[4])
+	}
 
 	if r.Replay != "" {
 		var d struct {
@@ -762,8 +849,13 @@ func main() {
 		r.Nontrivial("replay2")
 		r.Finish(0)
 	}
-	if *mode != "" {
-		runBatch(r, *mode, *kind, *shard, *nshards, *sample)
+	if pf := os.Getenv("VERIF_CPUPROFILE"); pf != "" {
+		f, _ := os.Create(pf)
+		_ = pprof.StartCPUProfile(f)
+		defer pprof.StopCPUProfile()
+	}
+	if mode != "" {
+		runBatch(r, mode, kind, shard, nshards, sample)
 		return
 	}
 
@@ -779,15 +871,15 @@ func main() {
 	// exhaustive: leveldb complete (2 shards), the other stores a seeded sample
 	exhShards := r.Pick(2, 6)
 	for s := 0; s < exhShards; s++ {
-		jobs = append(jobs, job{fmt.Sprintf("exh-leveldb-%d", s), []string{"--mode", "exh", "--store", "leveldb", "--shard", fmt.Sprint(s), "--nshards", fmt.Sprint(exhShards)}})
+		jobs = append(jobs, job{fmt.Sprintf("exh-leveldb-%d", s), []string{"exh", "leveldb", fmt.Sprint(s), fmt.Sprint(exhShards), "1"}})
 	}
 	for _, k := range []string{"leveldb2", "leveldb3"} {
-		jobs = append(jobs, job{"exh-" + k, []string{"--mode", "exh", "--store", k, "--sample", fmt.Sprint(r.Pick(8, 12))}})
+		jobs = append(jobs, job{"exh-" + k, []string{"exh", k, "0", "1", fmt.Sprint(r.Pick(10, 3))}})
 	}
 	for _, k := range lib.FilerStoreKinds {
 		rs := r.Pick(1, 2)
 		for s := 0; s < rs; s++ {
-			jobs = append(jobs, job{fmt.Sprintf("rand-%s-%d", k, s), []string{"--mode", "rand", "--store", k, "--shard", fmt.Sprint(s), "--nshards", fmt.Sprint(rs)}})
+			jobs = append(jobs, job{fmt.Sprintf("rand-%s-%d", k, s), []string{"rand", k, fmt.Sprint(s), fmt.Sprint(rs), "1"}})
 		}
 	}
 	sem := make(chan struct{}, 4)
@@ -798,7 +890,7 @@ func main() {
 		go func(j job) {
 			defer wg.Done()
 			defer func() { <-sem }()
-			r.RunChild(j.label, self, nil, j.args...)
+			r.RunChild(j.label, self, []string{"GOMAXPROCS=2"}, j.args...)
 		}(j)
 	}
 	wg.Wait()
